@@ -14,6 +14,8 @@ pub enum Class {
     Arbitrary,
     Hostile,
     Seed,
+    /// a well-formed document with one number token moved to just below / at / above its limit
+    Limit,
 }
 
 impl Class {
@@ -24,6 +26,7 @@ impl Class {
             Class::Arbitrary => "arbitrary",
             Class::Hostile => "hostile",
             Class::Seed => "seed",
+            Class::Limit => "limit",
         }
     }
 }
@@ -344,6 +347,16 @@ pub fn hostile(pk: PK) -> Vec<Vec<u8>> {
 pub fn draw(rng: &mut Rng, cfg: PCfg, size: usize) -> Input {
     let w = rng.below(100);
     let pk = cfg.pk;
+    if w < 10 {
+        let doc = gen_doc(rng, cfg, size.min(12), 10);
+        if let Some((bytes, _)) = crate::c06::limit_mutation(rng, pk, &doc) {
+            return Input {
+                bytes,
+                class: Class::Limit,
+                doc: None,
+            };
+        }
+    }
     if w < 40 {
         let density = *rng.pick(&[0u64, 0, 15, 35, 60]);
         let doc = gen_doc(rng, cfg, size, density);
